@@ -230,3 +230,24 @@ REGISTRY["C10"] = {
          "checks": {"quick": 100, "thorough": 2000}, "shards": {"quick": 4, "thorough": 8}},
     ],
 }
+
+REGISTRY["C09"] = {
+    "pkg": "props/c09",
+    "level": "exploration",
+    "level_text": ("(a) Tracer in isolation: rapid-drawn scripts with 1..8 registered senders (1..12 payloads each, all concurrent), a permanent reference "
+                   "subscriber (buffer 0..4) and 0..4 further subscribers with buffer 0..16, a subscribe point, an unsubscribe point and a read delay; every "
+                   "Send/Subscribe/Unsubscribe is stamped with a logical clock. Oracle: the reference sequence contains every payload once in each sender's "
+                   "order; every other subscriber's sequence is a contiguous infix of it, contains nothing whose Send returned before its SubscribeChannel "
+                   "call or was invoked after its Unsubscribe returned, and starts no later than the first payload sent after its subscription returned; all "
+                   "calls return (all-parked fixpoint with unfinished participants = deadlock); after cancel + senders done channels and Done() are closed. "
+                   "(b) Engine: C01-style generated programs run with two recording subscribers; both must see the identical sequence and the stream must "
+                   "obey the causality grammar (FlowTrace announces forked flows before their NewFlowTrace, Visit before Leave per node, nothing after a flow's "
+                   "TerminationTrace)."),
+    "level_note": "Trusted: the logical-clock bounds (Send returns when the broadcaster has taken the trace), the grammar checker drive.Causality, quiescence detector. Interleavings are sampled (perturbation at tracer.Send, GOMAXPROCS variation).",
+    "technique": "rapid property tests: generated concurrent sender/subscriber scripts against an order/infix oracle; trace-grammar invariant over generated engine runs",
+    "rule": ("(a) distinct = script; non-trivial = >=2 senders and >=1 subscriber that joined or left mid-stream. (b) distinct = lock-step case; non-trivial = the run contains >=1 fork (FlowTrace announcing >1 flow)."),
+    "tests": [
+        {"name": "TestC09Tracer", "checks": {"quick": 250, "thorough": 20000}, "shards": {"quick": 12, "thorough": 16}, "gomaxprocs": [4, 2, 16, 1]},
+        {"name": "TestC09Engine", "checks": {"quick": 120, "thorough": 4000}, "shards": {"quick": 8, "thorough": 16}, "gomaxprocs": [4, 2, 16, 1]},
+    ],
+}
